@@ -37,7 +37,8 @@ func runE2E(in *bufio.Scanner, w *bufio.Writer) {
 	var done chan error
 	var out string
 	caseNo := 0
-	valid := uint32(0) // valid frames announced by the generator so far
+	var curConf *Config
+	valid := uint32(0) // valid frames announced by the generator so far (this connection)
 	active := false
 	for in.Scan() {
 		line := in.Text()
@@ -78,18 +79,18 @@ func runE2E(in *bufio.Scanner, w *bufio.Writer) {
 			processor = nil
 			headerInfo = nil
 			frameLogIntervalFirstMin, frameLogInterval = 15, 60*5
-			var server net.Conn
-			server, client = net.Pipe()
-			done = make(chan error, 1)
-			go func() {
-				defer func() {
-					if e := recover(); e != nil {
-						done <- fmt.Errorf("panic: %v\n%s", e, debug.Stack())
-					}
-				}()
-				done <- handleConn(server, conf)
-			}()
+			curConf = conf
+			client, done = vStartConn(conf)
 			active = true
+		case "n": // the camera daemon reconnects: same process, same Config, a new handleConn (as runMain's loop does)
+			if !active {
+				continue
+			}
+			client.Close()
+			vReportConn(w, done)
+			valid = 0
+			headerInfo = nil
+			client, done = vStartConn(curConf)
 		case "b": // b <valid frames completed by the end of this segment> <hex>
 			if !active {
 				continue
@@ -129,30 +130,8 @@ func runE2E(in *bufio.Scanner, w *bufio.Writer) {
 				continue
 			}
 			client.Close()
-			select {
-			case err := <-done:
-				switch {
-				case err == io.EOF:
-					fmt.Fprintln(w, "< conn eof")
-				case err == io.ErrUnexpectedEOF:
-					fmt.Fprintln(w, "< conn truncated")
-				case err != nil && strings.HasPrefix(err.Error(), "panic"):
-					fmt.Fprintln(w, "< conn panic")
-				default:
-					fmt.Fprintln(w, "< conn error")
-				}
-			case <-time.After(30 * time.Second):
-				fmt.Fprintln(w, "< conn hang")
-			}
+			vReportConn(w, done)
 			active = false
-			if headerInfo != nil {
-				fmt.Fprintf(w, "< header resx=%d resy=%d fps=%d framesize=%d brand=%s model=%s serial=%d firmware=%s\n",
-					headerInfo.ResX(), headerInfo.ResY(), headerInfo.FPS(), headerInfo.FrameSize(),
-					hex.EncodeToString([]byte(headerInfo.Brand())), hex.EncodeToString([]byte(headerInfo.Model())),
-					headerInfo.CameraSerial(), hex.EncodeToString([]byte(headerInfo.Firmware())))
-			} else {
-				fmt.Fprintln(w, "< header none")
-			}
 			vDumpDir(w, out, "main")
 			vDumpDir(w, filepath.Join(out, "constant-recordings"), "const")
 		}
@@ -173,6 +152,51 @@ func vWaitQuiescent(cond func() bool) {
 			}
 		}
 		time.Sleep(200 * time.Microsecond)
+	}
+}
+
+func vStartConn(conf *Config) (net.Conn, chan error) {
+	server, client := net.Pipe()
+	done := make(chan error, 1)
+	go func() {
+		defer func() {
+			if e := recover(); e != nil {
+				done <- fmt.Errorf("panic: %v\n%s", e, debug.Stack())
+			}
+		}()
+		done <- handleConn(server, conf)
+	}()
+	return client, done
+}
+
+// vReportConn waits for handleConn to return and reports how the connection ended and what camera it saw
+func vReportConn(w *bufio.Writer, done chan error) {
+	select {
+	case err := <-done:
+		switch {
+		case headerInfo == nil:
+			// the connection ended before a complete camera header: must be an error, never a partial description
+			fmt.Fprintf(w, "< conn header-error %v\n", err != nil)
+		case err == io.EOF:
+			fmt.Fprintln(w, "< conn eof")
+		case err == io.ErrUnexpectedEOF:
+			fmt.Fprintln(w, "< conn truncated")
+		case err != nil && strings.HasPrefix(err.Error(), "panic"):
+			fmt.Fprintln(os.Stderr, "handleConn:", err)
+			fmt.Fprintln(w, "< conn panic")
+		default:
+			fmt.Fprintln(w, "< conn error")
+		}
+	case <-time.After(30 * time.Second):
+		fmt.Fprintln(w, "< conn hang")
+	}
+	if headerInfo != nil {
+		fmt.Fprintf(w, "< header resx=%d resy=%d fps=%d framesize=%d brand=%s model=%s serial=%d firmware=%s\n",
+			headerInfo.ResX(), headerInfo.ResY(), headerInfo.FPS(), headerInfo.FrameSize(),
+			hex.EncodeToString([]byte(headerInfo.Brand())), hex.EncodeToString([]byte(headerInfo.Model())),
+			headerInfo.CameraSerial(), hex.EncodeToString([]byte(headerInfo.Firmware())))
+	} else {
+		fmt.Fprintln(w, "< header none")
 	}
 }
 
@@ -251,6 +275,7 @@ type e2eCfg struct {
 	dyn, tmin, tmax, thresh, delta, count, gap, one, trig, warmer, edge int
 	throttle, bucketSecs                                                int
 	lepton                                                              int
+	motionDefaults                                                      int
 	w, h, fps                                                           int
 	devID                                                               int
 	devName                                                             string
@@ -276,6 +301,11 @@ func (c e2eCfg) toml() string {
 	if c.windowSet == 1 {
 		win = "start-recording = \"10:00\"\nstop-recording = \"11:00\"\n"
 	}
+	motion := ""
+	if c.motionDefaults == 0 {
+		motion = fmt.Sprintf("[thermal-motion]\ndynamic-threshold = %s\ntemp-thresh-min = %d\ntemp-thresh-max = %d\ntemp-thresh = %d\ndelta-thresh = %d\ncount-thresh = %d\nframe-compare-gap = %d\nuse-one-diff-only = %s\ntrigger-frames = %d\nwarmer-only = %s\nedge-pixels = %d\n",
+			b2s(c.dyn), c.tmin, c.tmax, c.thresh, c.delta, c.count, c.gap, b2s(c.one), c.trig, b2s(c.warmer), c.edge)
+	}
 	return fmt.Sprintf(`[device]
 id = %d
 name = "%s"
@@ -291,32 +321,19 @@ max-secs = %d
 preview-secs = %d
 min-disk-space-mb = %d
 constant-recorder = %s
-[thermal-motion]
-dynamic-threshold = %s
-temp-thresh-min = %d
-temp-thresh-max = %d
-temp-thresh = %d
-delta-thresh = %d
-count-thresh = %d
-frame-compare-gap = %d
-use-one-diff-only = %s
-trigger-frames = %d
-warmer-only = %s
-edge-pixels = %d
-[thermal-throttler]
+%s[thermal-throttler]
 activate = %s
 bucket-size = "%ds"
 min-refill = "100h"
 [windows]
 %s`, c.devID, c.devName, c.lat, c.lon, c.alt, c.acc, c.min, c.max, c.preview, disk, b2s(c.constOn),
-		b2s(c.dyn), c.tmin, c.tmax, c.thresh, c.delta, c.count, c.gap, b2s(c.one), c.trig, b2s(c.warmer), c.edge,
-		b2s(c.throttle), c.bucketSecs, win)
+		motion, b2s(c.throttle), c.bucketSecs, win)
 }
 
 func (c e2eCfg) caseLine(id int) string {
-	return fmt.Sprintf("case %d e2e min=%d max=%d preview=%d const=%d disk=%d window=%d windowset=%d dyn=%d tmin=%d tmax=%d thresh=%d delta=%d count=%d gap=%d one=%d trig=%d warmer=%d edge=%d throttle=%d bucketsecs=%d lepton=%d devid=%d devname=%s lat=%d lon=%d alt=%d acc=%d toml=%s",
+	return fmt.Sprintf("case %d e2e min=%d max=%d preview=%d const=%d disk=%d window=%d windowset=%d dyn=%d tmin=%d tmax=%d thresh=%d delta=%d count=%d gap=%d one=%d trig=%d warmer=%d edge=%d throttle=%d bucketsecs=%d motiondefaults=%d devid=%d devname=%s lat=%d lon=%d alt=%d acc=%d toml=%s",
 		id, c.min, c.max, c.preview, c.constOn, c.diskOk, c.window, c.windowSet, c.dyn, c.tmin, c.tmax, c.thresh, c.delta, c.count, c.gap,
-		c.one, c.trig, c.warmer, c.edge, c.throttle, c.bucketSecs, c.lepton, c.devID, hex.EncodeToString([]byte(c.devName)),
+		c.one, c.trig, c.warmer, c.edge, c.throttle, c.bucketSecs, c.motionDefaults, c.devID, hex.EncodeToString([]byte(c.devName)),
 		f32bits(c.lat), f32bits(c.lon), f32bits(c.alt), f32bits(c.acc), hex.EncodeToString([]byte(c.toml())))
 }
 
@@ -355,147 +372,212 @@ func genE2E(r *vRng, tier string, w *bufio.Writer) {
 				c.tmin, c.tmax = 3000, 4000
 			}
 		}
-		c.lepton = 0
-		c.w, c.h = r.pick(6, 8, 10), r.pick(5, 6, 8)
-		c.model = "boson"
-		if id%8 == 5 {
-			c.lepton = 1
-			c.w, c.h, c.fps = 160, 120, 9
-			c.model = []string{"lepton3", "lepton3.5"}[r.intn(2)]
-			c.preview, c.min, c.max = r.pick(0, 1), 0, 1
-			if c.throttle == 1 {
+		// one or two camera connections in the same process; with motionDefaults the [thermal-motion] section is
+		// left out of config.toml and the camera model of each connection selects the defaults
+		c.motionDefaults = 0
+		nconn := 1
+		if r.chance(35) {
+			nconn = 2
+			if r.chance(60) {
+				c.motionDefaults = 1
+			}
+		}
+		if c.motionDefaults == 1 {
+			c.preview, c.min, c.max = r.pick(0, 1), r.pick(0, 1), 1
+			if c.throttle == 1 && c.min+c.preview == 0 {
 				c.min = 1
 			}
-			if c.preview*c.fps+c.trig == 0 {
-				c.trig = 1
-			}
+			c.fps = 9
 		}
 		c.edge = r.pick(0, 1, 1, 2)
-		fsize := c.w * c.h * 2
-		if c.lepton == 1 {
-			fsize = lepton3.BytesPerFrame
-		}
 		fmt.Fprintln(w, c.caseLine(id))
-		hdrMap := map[string]interface{}{"ResX": c.w, "ResY": c.h, "FrameSize": fsize, "Model": c.model,
-			"Brand": "flir", "FPS": c.fps, "CameraSerial": c.serial, "Firmware": c.firmware}
-		hdr, _ := yaml.Marshal(hdrMap)
-		stream := append([]byte{}, hdr...)
-		stream = append(stream, '\n')
-		// items
-		type seg struct {
-			data  []byte
-			valid int
-			treq  bool
-		}
-		var segs []seg
-		flush := func(valid int, treq bool) {
-			// split the pending bytes into random segments
-			for len(stream) > 0 {
-				n := r.pick(1, 3, 7, 50, fsize, fsize+3, 5000, 100000)
-				if n > len(stream) {
-					n = len(stream)
-				}
-				segs = append(segs, seg{data: stream[:n], valid: -1})
-				stream = stream[n:]
-			}
-			if len(segs) > 0 {
-				segs[len(segs)-1].valid = valid
-				segs[len(segs)-1].treq = treq
-			}
-		}
-		nItems := r.rng(10, 60)
-		if c.lepton == 1 {
-			nItems = r.rng(6, 14)
-		}
-		base := r.pick(2000, 3000, 3500, 5000)
-		hot := 0
-		validCount := 0
-		tonMs := uint32(r.rng(20000, 900000))
-		lastFFC := uint32(0)
-		if tonMs > 200000 {
-			lastFFC = tonMs - 150000
-		}
-		for k := 0; k < nItems; k++ {
-			x := r.intn(100)
-			switch {
-			case x < 5:
-				stream = append(stream, "clear"...)
-				continue
-			case x < 9 && validCount > 0:
-				flush(validCount, true)
-				continue
-			}
-			bad := x < 14
-			if r.chance(50) {
-				hot = 1 - hot
-			}
-			tonMs += uint32(r.pick(111, 111, 333, 1000))
-			if c.lepton == 1 && r.chance(10) {
-				lastFFC = tonMs - uint32(r.pick(0, 500, 9999, 10000))
-			}
-			raw := make([]byte, fsize)
-			off := 0
-			put := func(i int, v uint16) {
-				if c.lepton == 1 {
-					binary.BigEndian.PutUint16(raw[off+2*i:], v)
-				} else {
-					binary.LittleEndian.PutUint16(raw[off+2*i:], v)
+		firstLepton := r.chance(50)
+		headerDone := false
+		for conn := 0; conn < nconn; conn++ {
+			cc := c
+			cc.lepton = 0
+			cc.w, cc.h = r.pick(6, 8, 10), r.pick(5, 6, 8)
+			cc.model = "boson"
+			isLepton := (c.motionDefaults == 1 && (conn == 0) == firstLepton) || (c.motionDefaults == 0 && nconn == 1 && id%8 == 5)
+			if isLepton {
+				cc.lepton = 1
+				cc.w, cc.h, cc.fps = 160, 120, 9
+				cc.model = []string{"lepton3", "lepton3.5"}[r.intn(2)]
+				if c.motionDefaults == 1 {
+					cc.model = "lepton3.5"
 				}
 			}
-			if c.lepton == 1 {
-				off = 640
-				be := func(word int, v uint16) { binary.BigEndian.PutUint16(raw[2*word:], v) }
-				be(1, uint16(tonMs))
-				be(2, uint16(tonMs>>16))
-				be(30, uint16(lastFFC))
-				be(31, uint16(lastFFC>>16))
-				be(24, uint16(27315+r.rng(-500, 4000)))
-				be(29, uint16(27315+r.rng(-500, 4000)))
-				be(20, uint16(k))
-				be(22, uint16(base))
-			}
-			for i := 0; i < c.w*c.h; i++ {
-				put(i, uint16(base+(i%3)))
-			}
-			// a blob in the interior when hot
-			if hot == 1 {
-				y, xx := c.h/2, c.w/2
-				put(y*c.w+xx, uint16(base+c.delta+r.pick(1, 30, 400)))
-				if c.count > 1 {
-					put(y*c.w+xx-1, uint16(base+c.delta+50))
+			if c.motionDefaults == 1 {
+				// effective settings = go-config's defaults for this camera model
+				cc.dyn, cc.tmin, cc.tmax, cc.count, cc.gap, cc.one, cc.trig, cc.warmer, cc.edge = 1, 0, 0, 3, 45, 1, 2, 1, 1
+				cc.thresh, cc.delta = 2900, 50
+				if cc.model == "lepton3.5" {
+					cc.thresh, cc.delta = 28000, 200
 				}
 			}
-			if bad {
-				// a zero pixel: interior (rejected) or border (accepted)
-				if r.chance(70) || c.edge == 0 {
-					put((c.h/2)*c.w+c.w/2+1, 0)
-				} else {
-					put(0, 0)
-					bad = false
-				}
+			if conn > 0 {
+				fmt.Fprintln(w, "n")
 			}
-			stream = append(stream, raw...)
-			if !bad {
-				validCount++
+			if !headerDone {
+				headerDone = true
 			}
+			genE2EConn(r, cc, w, conn == nconn-1)
 		}
-		// sometimes cut the stream inside the last item
-		cut := r.chance(20) && len(stream) > 10
-		if cut {
-			stream = stream[:len(stream)-r.rng(1, 9)]
+		fmt.Fprintln(w, "end")
+	}
+}
+
+// genE2EConn emits the socket bytes of one camera connection (header, frames, markers, bad frames, test requests)
+func genE2EConn(r *vRng, c e2eCfg, w *bufio.Writer, last bool) {
+	fsize := c.w * c.h * 2
+	if c.lepton == 1 {
+		fsize = lepton3.BytesPerFrame
+	}
+	hdrMap := map[string]interface{}{"ResX": c.w, "ResY": c.h, "FrameSize": fsize, "Model": c.model,
+		"Brand": "flir", "FPS": c.fps, "CameraSerial": c.serial, "Firmware": c.firmware}
+	hdr, _ := yaml.Marshal(hdrMap)
+	stream := append([]byte{}, hdr...)
+	stream = append(stream, '\n')
+	type seg struct {
+		data  []byte
+		valid int
+		treq  bool
+	}
+	var segs []seg
+	flush := func(valid int, treq bool) {
+		for len(stream) > 0 {
+			n := r.pick(1, 3, 7, 50, fsize, fsize+3, 5000, 100000)
+			if n > len(stream) {
+				n = len(stream)
+			}
+			segs = append(segs, seg{data: stream[:n], valid: -1})
+			stream = stream[n:]
 		}
-		flush(validCount, false)
+		if len(segs) > 0 {
+			segs[len(segs)-1].valid = valid
+			segs[len(segs)-1].treq = treq
+		}
+	}
+	emit := func() {
 		for _, s := range segs {
-			fmt.Fprintf(w, "b %d %s\n", func() int {
-				if s.valid >= 0 {
-					return s.valid
-				}
-				return 0
-			}(), hex.EncodeToString(s.data))
+			v := 0
+			if s.valid >= 0 {
+				v = s.valid
+			}
+			fmt.Fprintf(w, "b %d %s\n", v, hex.EncodeToString(s.data))
 			if s.treq {
 				fmt.Fprintln(w, "t")
 			}
 		}
-		fmt.Fprintln(w, "end")
 	}
+	// sometimes the connection dies inside the header: mid-line, exactly at a line boundary, before the blank line, at byte 0
+	if last && r.chance(12) {
+		hl := len(hdr) + 1
+		var at int
+		switch r.intn(4) {
+		case 0:
+			at = r.intn(hl)
+		case 1:
+			nl := []int{0}
+			for i, ch := range hdr {
+				if ch == '\n' {
+					nl = append(nl, i+1)
+				}
+			}
+			at = nl[r.intn(len(nl))]
+		case 2:
+			at = hl - 1
+		case 3:
+			at = 0
+		}
+		stream = stream[:at]
+		flush(0, false)
+		emit()
+		return
+	}
+	nItems := r.rng(10, 60)
+	if c.lepton == 1 {
+		nItems = r.rng(6, 14)
+	}
+	base := r.pick(2000, 3000, 3500, 5000)
+	if c.motionDefaults == 1 {
+		base = 30000
+	}
+	hot := 0
+	validCount := 0
+	tonMs := uint32(r.rng(20000, 900000))
+	lastFFC := uint32(0)
+	if tonMs > 200000 {
+		lastFFC = tonMs - 150000
+	}
+	for k := 0; k < nItems; k++ {
+		x := r.intn(100)
+		switch {
+		case x < 5:
+			stream = append(stream, "clear"...)
+			continue
+		case x < 9 && validCount > 0:
+			flush(validCount, true)
+			continue
+		}
+		bad := x < 14
+		if r.chance(50) {
+			hot = 1 - hot
+		}
+		tonMs += uint32(r.pick(111, 111, 333, 1000))
+		if c.lepton == 1 && r.chance(10) {
+			lastFFC = tonMs - uint32(r.pick(0, 500, 9999, 10000))
+		}
+		raw := make([]byte, fsize)
+		off := 0
+		put := func(i int, v uint16) {
+			if c.lepton == 1 {
+				binary.BigEndian.PutUint16(raw[off+2*i:], v)
+			} else {
+				binary.LittleEndian.PutUint16(raw[off+2*i:], v)
+			}
+		}
+		if c.lepton == 1 {
+			off = 640
+			be := func(word int, v uint16) { binary.BigEndian.PutUint16(raw[2*word:], v) }
+			be(1, uint16(tonMs))
+			be(2, uint16(tonMs>>16))
+			be(30, uint16(lastFFC))
+			be(31, uint16(lastFFC>>16))
+			be(24, uint16(27315+r.rng(-500, 4000)))
+			be(29, uint16(27315+r.rng(-500, 4000)))
+			be(20, uint16(k))
+			be(22, uint16(base))
+		}
+		for i := 0; i < c.w*c.h; i++ {
+			put(i, uint16(base+(i%3)))
+		}
+		if hot == 1 {
+			y, xx := c.h/2, c.w/2
+			put(y*c.w+xx, uint16(base+c.delta+r.pick(1, 30, 400)))
+			if c.count > 1 {
+				put(y*c.w+xx-1, uint16(base+c.delta+50))
+			}
+			if c.count > 2 {
+				put(y*c.w+xx+1, uint16(base+c.delta+60))
+			}
+		}
+		if bad {
+			if r.chance(70) || c.edge == 0 {
+				put((c.h/2)*c.w+c.w/2+1, 0)
+			} else {
+				put(0, 0)
+				bad = false
+			}
+		}
+		stream = append(stream, raw...)
+		if !bad {
+			validCount++
+		}
+	}
+	if last && r.chance(20) && len(stream) > 10 {
+		stream = stream[:len(stream)-r.rng(1, 9)]
+	}
+	flush(validCount, false)
+	emit()
 }
